@@ -195,6 +195,14 @@ def _options_toggled():
     ag = m.AnalogGenerator()
     ag.smooth_frequency_change = False
     ag.clone()
+    # values wider than the option's bit field, negative values, constructor keywords (the library takes them silently)
+    sm = m.Sampler()
+    sm.fit_to_pattern = 300
+    sm.fit_to_pattern = -1
+    sm.clone()
+    m.MultiSynth(active_curve=7, out_port_mode=9).clone()
+    m.MetaModule(user_defined_controllers=200, arpeggiator=True).clone()
+    m.Sound2Ctl(send_only_changed_values=False, record_values=True).clone()
 
 
 def _controllers_everywhere():
